@@ -76,6 +76,9 @@ type Opts struct {
 	VoteOneIn      int
 	FailOneIn      int
 	V0OneIn        int
+	// NoInstrOneIn: 1/k of the non-vote transactions carry no instruction at all (legal on the wire; such a
+	// transaction names no program)
+	NoInstrOneIn int
 	// FailOtherKindOneIn: 1/k of the failed transactions fail with AccountInUse instead of InstructionError/Custom
 	FailOtherKindOneIn int
 	NoPosIndexOneIn    int // not used by default (0): transactions always carry a position index
@@ -118,6 +121,7 @@ type Tx struct {
 	LoadedW []solana.PublicKey
 	LoadedR []solana.PublicKey
 	IsVote  bool
+	NoInstr bool // the message carries no instruction
 	Failed  bool
 	V0      bool
 	// FailOtherKind: failed with a TransactionError other than InstructionError/Custom
@@ -743,6 +747,10 @@ func genTx(rng *rand.Rand, o *Opts, slot uint64, pos int) *Tx {
 		AccountKeys:  keys,
 		Header:       solana.MessageHeader{NumRequiredSignatures: uint8(nsig), NumReadonlySignedAccounts: 0, NumReadonlyUnsignedAccounts: 1},
 		Instructions: []solana.CompiledInstruction{{ProgramIDIndex: uint16(len(keys) - 1), Accounts: accIdx, Data: data}},
+	}
+	if !t.IsVote && oneIn(rng, o.NoInstrOneIn) {
+		msg.Instructions = []solana.CompiledInstruction{}
+		t.NoInstr = true
 	}
 	rng.Read(msg.RecentBlockhash[:])
 	t.Static = append([]solana.PublicKey{}, keys...)
